@@ -699,6 +699,38 @@ func gen(tier string, r *lib.Rand, emit func(string)) {
 		}
 	}
 
+	// exec.Parallel: a few algorithms at a time with every relation between their number k and the
+	// concurrency limit (1, k-1, k, k+1, 2k, 16, 64); position i of the result must be algorithm i's
+	// result.  Only total configurations: a panic in a worker goroutine cannot be recovered.
+	var totals []config
+	for _, c := range all {
+		if c.total() && c.maxbits >= 64 {
+			totals = append(totals, c)
+		}
+	}
+	nsets := 24
+	if thorough {
+		nsets = 600
+	}
+	for i := 0; i < nsets; i++ {
+		k := r.Range(2, 8)
+		var n *big.Int
+		if i%3 == 0 {
+			n = big.NewInt(int64(r.Range(1, 64)))
+		} else {
+			n = family(r, i, []int{16, 32, 64}[r.Intn(3)], 0, 0)
+		}
+		cfgs := make([]config, k)
+		for j := range cfgs {
+			cfgs[j] = totals[r.Intn(len(totals))]
+		}
+		for _, limit := range []int{1, k - 1, k, k + 1, 2 * k, 16, 64} {
+			if limit >= 1 {
+				emit(parallelCase(limit, n, cfgs))
+			}
+		}
+	}
+
 	// rtl on the families
 	nrtl := 60
 	if thorough {
@@ -901,8 +933,91 @@ func run(c string) string {
 	case f[0] == "execute" && len(f) == 4:
 		cfg, n := parseExec(f)
 		return execute(cfg.alg, n)
+	case f[0] == "parallel" && len(f) == 5:
+		limit, n, cfgs := parseParallel(f)
+		return parallel(limit, n, cfgs)
 	}
 	panic("unknown case " + c)
+}
+
+// parallel <limit> <n> <alg1;alg2;...> <observed1;observed2;...>
+func parseParallel(f []string) (int, *big.Int, []config) {
+	cfgs := []config{}
+	for _, name := range strings.Split(f[3], ";") {
+		c, ok := byName[name]
+		if !ok {
+			panic("unknown algorithm " + name)
+		}
+		cfgs = append(cfgs, c)
+	}
+	return lib.Atoi(f[1]), lib.ParseHex(f[2]), cfgs
+}
+
+// parallel runs exec.Parallel on the list and prints, per position, the name of the algorithm the
+// result slot carries and its result; a zero-valued slot prints as "- empty".
+func parallel(limit int, n *big.Int, cfgs []config) string {
+	as := make([]alg.ChainAlgorithm, len(cfgs))
+	for i, c := range cfgs {
+		as[i] = c.alg
+	}
+	return guarded(func() string {
+		p := exec.NewParallel()
+		p.SetConcurrency(limit)
+		rs := p.Execute(n, as)
+		out := make([]string, len(rs))
+		for i, r := range rs {
+			switch {
+			case r.Algorithm == nil:
+				out[i] = "- empty"
+			case r.Err != nil:
+				out[i] = r.Algorithm.String() + " err " + errClass(r.Err)
+			default:
+				out[i] = r.Algorithm.String() + " ok " + lib.HexList(r.Chain) + " | " + opList(r.Program)
+			}
+		}
+		return "ok " + strings.Join(out, " ; ")
+	})
+}
+
+func parallelCase(limit int, n *big.Int, cfgs []config) string {
+	names, obs := make([]string, len(cfgs)), make([]string, len(cfgs))
+	for i, c := range cfgs {
+		names[i], obs[i] = c.alg.String(), observe(c, n)
+	}
+	return fmt.Sprintf("parallel %d %s %s %s", limit, lib.Hex(n), strings.Join(names, ";"), strings.Join(obs, ";"))
+}
+
+func oracleParallel(c, res string) string {
+	f := strings.Split(c, " ")
+	limit, n, cfgs := parseParallel(f)
+	orig := new(big.Int).Set(n)
+	again := parallel(limit, n, cfgs)
+	if n.Cmp(orig) != 0 {
+		return "target modified by the call"
+	}
+	if res == "hang" || strings.HasPrefix(res, "panic") {
+		return "parallel execution: " + res
+	}
+	slots := strings.Split(strings.TrimPrefix(res, "ok "), " ; ")
+	if len(slots) != len(cfgs) {
+		return fmt.Sprintf("%d result slots for %d algorithms", len(slots), len(cfgs))
+	}
+	for i, sl := range slots {
+		sp := strings.SplitN(sl, " ", 2)
+		if len(sp) != 2 || sp[1] == "empty" {
+			return fmt.Sprintf("position %d: no result (zero-valued slot) for %s", i, cfgs[i].alg)
+		}
+		if sp[0] != cfgs[i].alg.String() {
+			return fmt.Sprintf("position %d carries the result of %s, not of %s", i, sp[0], cfgs[i].alg)
+		}
+		if msg := checkResult(cfgs[i], orig, sp[1]); msg != "" {
+			return fmt.Sprintf("position %d (%s): %s", i, sp[0], msg)
+		}
+	}
+	if again != res {
+		return "second run differs"
+	}
+	return ""
 }
 
 // ---- oracle: the property stated directly ----
@@ -969,6 +1084,11 @@ func oracleExecute(c, res string) string {
 	if again != res {
 		return "second run differs: " + again
 	}
+	return checkResult(cfg, orig, res)
+}
+
+// checkResult states the property on one Execute result line for target n.
+func checkResult(cfg config, orig *big.Int, res string) string {
 	switch {
 	case res == "hang":
 		return "no answer within the watchdog time"
@@ -1135,6 +1255,8 @@ func oracle(c, res string) string {
 		return ""
 	case "execute":
 		return oracleExecute(c, res)
+	case "parallel":
+		return oracleParallel(c, res)
 	}
 	return "unknown case"
 }
@@ -1144,6 +1266,8 @@ func nontrivial(c, res string) bool {
 	switch f[0] {
 	case "execute":
 		return lib.ParseHex(f[2]).BitLen() >= 3 && (strings.HasPrefix(res, "ok ") || res == "err noseq")
+	case "parallel":
+		return strings.HasPrefix(res, "ok ") && !strings.Contains(res, "empty")
 	case "rtl":
 		return lib.ParseHex(f[1]).BitLen() >= 3
 	case "dictsumchain":
